@@ -516,12 +516,14 @@ func (adb *AccountsDB) removeCodeAndDataTrie(acnt vmcommon.AccountHandler) error
 		return nil
 	}
 
-	err := adb.removeCode(baseAcc)
+	// the data trie step can fail (the trie is recreated from storage), so it comes first: a removal that
+	// returns an error must not have dropped the account's code reference already
+	err := adb.removeDataTrie(baseAcc)
 	if err != nil {
 		return err
 	}
 
-	err = adb.removeDataTrie(baseAcc)
+	err = adb.removeCode(baseAcc)
 	if err != nil {
 		return err
 	}
